@@ -416,7 +416,12 @@ func (s *sim) runAlertCase(c *caseIn) *outcome {
 			select {
 			case s.mons[i].AlertCh <- a:
 			default:
-				s.t.Fatalf("alert channel of peer %d is full: its alert handler is gone", i)
+				// the peer's alert handler is gone and nobody reads any more:
+				// make room (the cases judge the consequences by themselves)
+				for len(s.mons[i].AlertCh) > 0 {
+					<-s.mons[i].AlertCh
+				}
+				s.mons[i].AlertCh <- a
 			}
 		}
 		synctest.Wait()
